@@ -180,6 +180,46 @@ CLAIMED = {
         "note": "Trusted: meminfo in kB, vmstat/zoneinfo in pages; interpreter subset.",
         "technique": "abstract interpretation (provenance, polynomial forms, units)",
     },
+    "C09": {
+        "text": "Decides, through the public front end and once per diskstats line "
+                "layout (14/18/20/7 fields, sysfs fallback; 15 only for totality), that "
+                "every snetio/sdiskio field is the kernel column the documentation "
+                "assigns to it, that only sector counters are scaled (by "
+                "DISK_SECTOR_SIZE = 512), that unknown layouts are rejected, that the "
+                "interface name ends at the LAST ':', that totals are field-wise sums "
+                "and partitions are skipped exactly when not perdisk, None/{} when "
+                "empty, and disk_usage's four formulas. Counter magnitudes are not "
+                "exercised.",
+        "note": "Trusted: iostats.rst / net/dev header tables (sa/oracles/linux.py); "
+                "interpreter subset; _wrap_numbers is bypassed (nowrap=False) - its "
+                "slot identity is C10's.",
+        "technique": "abstract interpretation per configuration (provenance, forms), "
+                     "control dependence",
+    },
+    "C13": {
+        "text": "Decides statm column/units for memory_info, key selection + kB*1024 + "
+                "tuple order of both smaps parsers and the roll-up fallback handler, "
+                "line-anchoring of the smaps regexes, the memory_maps tuple against the "
+                "named-tuple fields and smaps keys (bounded header split, [anon]), the "
+                "grouping slots and tuple compatibility on every platform, and "
+                "memory_percent's validation order and form.",
+        "note": "Trusted: proc(5) statm/smaps tables; interpreter subset.",
+        "technique": "abstract interpretation (provenance, forms), regex-literal "
+                     "analysis, table agreement",
+    },
+    "C14": {
+        "text": "Decides exhaustiveness of the access-mode table over the values its "
+                "mask can produce, the (access, O_APPEND) -> mode table by constant-"
+                "folded evaluation over the finite domain, the regular-file/absolute-"
+                "path filter as control dependence of the append, the errno skip "
+                "policy, provenance of position/flags(base 8)/fd/path, num_fds, and "
+                "the /proc/<pid>/io key table with its tolerance of blank/malformed "
+                "lines. Descriptors closing mid-scan are C03's.",
+        "note": "Trusted: os.O_* values for Linux (table in absint.OS_CONSTS), fdinfo "
+                "layout.",
+        "technique": "finite-domain exhaustiveness, abstract interpretation, control "
+                     "dependence",
+    },
 }
 
 NOT_APPLICABLE = {}
